@@ -2,7 +2,7 @@
    This is what the OCaml driver calls; each command evaluates model functions on a case that the
    Python harness also runs on the rebuilt implementation. *)
 From OptreeModel Require Export Wire Flatten Unflatten Spec Ops Registry Pickle Accessor.
-From OptreeModel Require Ravel Dataclass Typing Faults Depth Alias Conc ArraySpec Construct Walk PrefixErr PrefixArr UpToArr JoinArr PathsArr.
+From OptreeModel Require Ravel Dataclass Typing Faults Depth Alias Conc ArraySpec Construct Walk PrefixErr PrefixArr UpToArr JoinArr PathsArr AccArr.
 
 Definition bad : sexp := SL [SI 2].   (* undecodable input: a harness error, never a verdict *)
 
@@ -49,7 +49,9 @@ Definition cmd_inspect (c : cfg) (o : obj) : sexp :=
            enc_sspec (ss_one_level s);
            enc_bool (wf_stree t);
            (* the array-level Paths walk (PathsArr.v) on the node array itself *)
-           enc_res (fun ps => SL (map enc_path ps)) (PathsArr.arr_paths sp) ]
+           enc_res (fun ps => SL (map enc_path ps)) (PathsArr.arr_paths sp);
+           (* and the array-level Accessors walk (AccArr.v) *)
+           enc_res (fun l => SL (map (fun a => SL (map enc_tentry a)) l)) (AccArr.arr_accessors sp) ]
     end
   end.
 
